@@ -24,7 +24,6 @@ class CaseRun(object):
         self.info = {}
         self.stats = {}
         self.skipped_mods = 0
-        self.skip_export_corr = False
 
     def run(self):
         desc = self.desc
@@ -42,18 +41,11 @@ class CaseRun(object):
             exp.apply(mod)
             mk = json.loads(json.dumps(m.markup))
             self._faithful(exp, mk, m, 'after modification %d: %s' % (i, mod[0]))
-        # the cached dict is stale at the end (helper registration that does not set the dirty flag): the
-        # oracle has reported it; the model's export of the *object state* is then not comparable
-        final_stale = exp.stale_helper and any(sig == mc.SIG_HELPER for _w, _d, sig in mc.check_faithful(exp, mk, m, 'final'))
-        self.skip_export_corr = final_stale
         codec = mc.Codec(desc['hier'], desc['opts']['model_attribute'])
         wst, wtr = mc.whitelist_codes()
         self.request = ('c14', [len(wst)] + wst + [len(wtr)] + wtr + codec.cfg(m))
         self.enc['markup'] = codec.markup(mk)
-        dead = exp.dead_triggers()
-        history = [h for h in desc['history'] if h[1] not in dead]
-        fs, info = mc.check_roundtrip(exp, m, mk, history, codec=codec,
-                                      extra_conds={mc.SIG_HELPER} if final_stale else ())
+        fs, info = mc.check_roundtrip(exp, m, mk, desc['history'], codec=codec)
         m2 = info.pop('m2', None)
         if m2 is not None and 'pre' in info:
             self.enc['cfg2'], self.enc['markup2'] = info.pop('pre')
@@ -79,7 +71,7 @@ class CaseRun(object):
         rtok = parts[1] == ['1']
         imported = parts[2] == ['1']
         self.stats['rtOK'] = rtok
-        if not self.skip_export_corr and mk_model != self.enc['markup']:
+        if mk_model != self.enc['markup']:
             k = next((i for i, (a, b) in enumerate(zip(mk_model, self.enc['markup'])) if a != b),
                      min(len(mk_model), len(self.enc['markup'])))
             self.failures.append(('correspondence', 'export_eq', {
@@ -87,8 +79,6 @@ class CaseRun(object):
                 'impl': self.enc['markup'][max(0, k - 6):k + 6],
                 'interned': {v: s for s, v in self.codec.I.t.items() if v in mk_model[max(0, k - 6):k + 6]
                              or v in self.enc['markup'][max(0, k - 6):k + 6]}}, None))
-        if self.skip_export_corr:
-            return
         if imported != self.info['rebuilt']:
             self.failures.append(('correspondence', 'import_defined', {'model_imports': imported,
                                                                        'impl_imports': self.info['rebuilt']}, None))
@@ -137,7 +127,7 @@ def chunk(seed, idx, n, stream):
     rng = random.Random('C14/%s/%d/%d' % (stream, seed, idx))
     knobs = {}
     if stream == 'clean':
-        # inside the domain of the round-trip theorem: none of the structural conditions of the open findings
+        # a plainer population: no internal transitions, default flags, model_attribute 'state', no helper calls
         knobs = {'p_internal': 0.0, 'flags': False, 'p_attr': 0.0, 'helper': False}
     descs = [mc.gen_case(rng, hier=(rng.random() < 0.5), knobs=knobs) for _ in range(n)]
     ex = Exploration()
@@ -261,13 +251,9 @@ class C14(runner.Check):
     prop = 'C14'
     level = 'proof'
     strict_correspondence = True
-    theorems = ('TM.C14_faithful_machine', 'TM.C14_faithful_afterSC_partial', 'TM.C14_faithful_afterSC_counterexample',
-                'TM.C14_faithful_tree', 'TM.C14_faithful_state', 'TM.C14_faithful_onFinal_partial',
-                'TM.C14_faithful_onFinal_counterexample', 'TM.C14_faithful_ignore_partial',
-                'TM.C14_faithful_ignore_counterexample', 'TM.C14_faithful_transitions',
-                'TM.C14_faithful_transition_fields', 'TM.C14_transition_entry_roundtrip', 'TM.C14_current',
-                'TM.C14_current_export', 'TM.C14_roundtrip_markup_partial', 'TM.C14_roundtrip_internal_counterexample',
-                'TM.C14_roundtrip_flag_counterexample', 'TM.C14_roundtrip_attr_counterexample')
+    theorems = ('TM.C14_faithful_machine', 'TM.C14_faithful_tree', 'TM.C14_faithful_state', 'TM.C14_faithful_ignore',
+                'TM.C14_faithful_transitions', 'TM.C14_faithful_transition_fields', 'TM.C14_transition_entry_roundtrip',
+                'TM.C14_current', 'TM.C14_current_export', 'TM.C14_roundtrip_markup')
     rule = ('random flat and hierarchical machine descriptions (2-4 top-level states, up to 3 levels, parallel initial '
             'lists, a distinct callback name in every state/transition/machine-level slot, all option combinations, '
             'internal/reflexive/wildcard/list-source transitions, local transitions of nested states, 1-3 models incl. '
@@ -284,33 +270,63 @@ class C14(runner.Check):
                'model states over random histories), not proved')
     manifest = dict(
         level='proof', design='DESIGN.md 4/C14 + design_notes/C14.md',
-        text="Lean 4 theorems over all configurations (state trees of any depth, any events/transitions per scope, any "
-             "callback lists, options, models) and all attribute whitelists: every state/transition/list/option/model "
-             "appears under its own key (C14_faithful_*), the dirty flag keeps the cached dict current under any "
-             "sequence of modifications and reads (C14_current), and the machine rebuilt from the exported markup "
-             "exists and exports the identical markup under decidable hypotheses (C14_roundtrip_markup_partial); the "
-             "five places where the pinned tree breaks the property are kept as full-strength statements with "
-             "machine-checked counterexamples. The model is tied to /repo on every run by equality of export, import "
-             "and re-export on generated machines; a Python oracle judges the real markup against the generating "
-             "description after construction and after every modification, and original and rebuilt machine are "
-             "compared on random event histories.",
+        text="Lean 4 theorems over all configurations (state trees of any depth, any events/transitions per scope incl. "
+             "internal ones, any callback lists, flags, options, models) and all attribute whitelists: every "
+             "state/transition/list/option/model appears under its own key and the entry determines the effective "
+             "state flag (C14_faithful_*), the dirty flag keeps the cached dict current under any sequence of "
+             "modifications and reads (C14_current), and the machine rebuilt from the exported markup exists and "
+             "exports the identical markup for every well-formed configuration (C14_roundtrip_markup, hypothesis = "
+             "dict invariants + reserved to_ names, evaluated by the driver on every generated machine). The model is "
+             "tied to /repo on every run by equality of export, import and re-export on generated machines; a Python "
+             "oracle judges the real markup against the generating description after construction and after every "
+             "modification, and original and rebuilt machine are compared on random event histories; the witnesses of "
+             "the six defects fixed in /repo run first as regression corpus.",
         note="Trusted: Lean kernel, Model/Markup.lean (hand-written after markup.py), harness extraction/interning, the "
              "Python oracle; behavioural equality is sampled. Assumes callbacks given by name, JSON-able state names "
-             "without the separator, auto_transitions_markup left False, an initial state configured.",
+             "without the separator and not named after model_attribute, auto_transitions_markup left False, an "
+             "initial state configured.",
         technique="Lean 4 proof (mutual structural induction over the state tree, dict-regrouping lemma, dirty-flag "
                   "invariant) + differential correspondence + Python property oracle + behavioural differential")
 
     streams = (('mixed', (16, 450), (64, 800)), ('clean', (16, 200), (32, 600)))
 
     def explore(self, tier, seed):
+        # whitelist hypotheses of C14_faithful_state / C14_faithful_transition_fields / C14_roundtrip_markup
+        wst, wtr = mc.whitelist_codes()
+        missing = [k for k, c in sorted(mc.ST_CODES.items()) if c not in wst] + [k for k, c in sorted(mc.TR_CODES.items()) if c not in wtr]
         payloads = []
         for name, quick, thorough in self.streams:
             nch, per = quick if tier == 'quick' else thorough
             payloads += [(seed, i, per, name) for i in range(nch)]
-        ex = Exploration()
+        ex = self.corpus()
+        if missing:
+            ex.failures.append(Failure('correspondence', 'theorem-hypothesis.whitelist', {'stream': 'none', 'desc': None},
+                                       {'missing_from_live_whitelists': missing}))
         for part in runner.parallel(chunk, payloads):
             ex.merge(part)
         self._shrink(ex.failures)
+        return ex
+
+    def corpus(self):
+        """regression cases (corpus/C14/*.json: the witnesses of the findings fixed in /repo), run first"""
+        import glob
+        import os
+        ex = Exploration()
+        files = sorted(glob.glob(os.path.join(common.CORPUS, 'C14', '*.json')))
+        cases = []
+        for f in files:
+            with open(f) as fh:
+                cases.append(json.load(fh))
+        for f, c, r in zip(files, cases, run_batch([c['desc'] for c in cases])):
+            ex.evaluations += 1
+            ex.traces_validated += 1
+            _bump(ex.stats.setdefault('corpus', {}), os.path.basename(f) + (':FAIL' if r.failures else ':ok'))
+            if not r.info.get('rebuilt') or not r.info.get('markup_equal') or not r.stats.get('rtOK'):
+                r.failures.append(('monitor', 'corpus.regression', {'file': os.path.basename(f), 'rebuilt': r.info.get('rebuilt'),
+                                                                    'markup_equal': r.info.get('markup_equal'),
+                                                                    'rtOK': r.stats.get('rtOK')}, None))
+            for kind, what, details, sig in r.failures:
+                ex.failures.append(Failure(kind, what, {'stream': 'corpus', 'desc': c['desc']}, details, signature=sig))
         return ex
 
     def _shrink(self, failures):
@@ -319,7 +335,7 @@ class C14(runner.Check):
         known = [k.get('signature') for k in self.known()]
         unlisted = [f for f in failures if f.kind == 'monitor' and not (f.signature is not None and f.signature in known)]
         corr = [f for f in failures if f.kind != 'monitor']
-        for f in (unlisted[:1] or corr[:1]):
+        for f in (unlisted[:1] or [c for c in corr if c.case.get('desc')][:1]):
             key = (f.kind, f.what, f.signature)
             f.case = runner.shrink(f.case, self.fails_like(f.kind, f.what, f.signature), shrink_steps, budget=300)
             r = rejudge(f.case)
@@ -372,10 +388,12 @@ class C14(runner.Check):
                 'model names derived from id(model) are excluded from "identical markup"; instance attributes of '
                 'models are not part of the machine',
                 '"callbacks are added" means the machine\'s dynamic methods (on_enter_<state>, before_<trigger>, ...) '
-                'anchored in _identify_callback; machine-level lists are exported as captured by the constructor '
-                '(assigning machine.before_state_change later is not reflected and is not judged); '
-                'auto_transitions_markup stays False; every machine has an initial state (initial=None re-imports '
-                'with the default state "initial")',
+                'and, on hierarchical machines, the on_enter/on_exit helpers; machine-level lists are exported as '
+                'captured by the constructor (assigning machine.before_state_change later is not reflected and is not '
+                'judged); auto_transitions_markup stays False; every machine has an initial state (initial=None '
+                're-imports with the default state "initial")',
+                'trigger names starting with to_ are reserved for automatic transitions (the _is_auto_transition '
+                'heuristic would omit a user-defined look-alike); no state is named after model_attribute',
                 'remove_transition is exercised on triggers that exist at machine level; model states are reached '
                 'by triggers or add_model(initial=...), i.e. are resolved configurations',
                 'behavioural equality original vs rebuilt is sampled over random histories (callbacks by name, '
